@@ -31,6 +31,18 @@ def run(ctx):
         res, g = tlc.dump_graph(wd, 'MC_Versions.tla', 'MC_Versions.cfg', timeout=3000)
         # dump_graph raises if an invariant fails; re-run plainly to tell which
         ctx.add_tlc('E0 MC_Versions.cfg (VersionedDict + registries + rename table)', res, 'MC_Versions.cfg')
+        # the rename table as the implementation resolves it, against the ends of the chains computed by TLC
+        import re
+        from harness.tlaval import parse_value
+        mt = re.search(r'<<\s*"TERMINALS",(.*?)>>', res.out, re.S)
+        if not mt:
+            raise core.MachineryFailure('TLC did not print the TERMINALS of the rename table')
+        terminals = {str(k): str(v) for k, v in parse_value(mt.group(1)).items()}
+        if len(terminals) != len(set(k for k, _ in consts['patch'])):
+            raise core.MachineryFailure('TERMINALS covers %d of %d rename-table keys' % (len(terminals), len(consts['patch'])))
+        ctx.cov['rename_chains_resolved_in_package'] = sum(1 for v in terminals.values() if v in set(consts['importable']))
+        for comp, want, got in A.resolution_problems(terminals, consts):
+            ctx.report(core.Divergence({'spec': 'Versions/resolution', 'check': comp}, 0, comp, want, got, kind='patch_resolution'))
         items = []
         for p in g.behaviours():
             sts = [g.state(n) for n in p]
